@@ -6,7 +6,7 @@ FAMILY = "kv"
 # every iterator is drained at creation. The driver answers from Spec.KV (base), Model.Table and
 # Model.Flushable (overlay + the transliterated merged iterator over the inner store's own iterator).
 STREAMS = {
-    "kv": {"quick": 4000, "thorough": 100000, "trivial": ["bad-op", "nostore", "nosnap", "noflushable", "nolazy"], "timeout": 3600},
+    "kv": {"quick": 3000, "thorough": 100000, "trivial": ["bad-op", "nostore", "nosnap", "noflushable", "nolazy"], "timeout": 3600},
     "kvflush": {"quick": 6000, "thorough": 120000, "trivial": ["bad-op", "nostore", "nosnap", "noflushable", "nolazy"], "timeout": 3600},
     "kvtable": {"quick": 4000, "thorough": 80000, "trivial": ["bad-op", "nostore", "nosnap", "noflushable", "nolazy"], "timeout": 3600},
 }
